@@ -90,6 +90,7 @@ class Tamperer(Forger):
         sock = node.udp.get(str(sa.my_addr))
         if sock is None:
             return
+        sent_before = len(self.wire.by_sender.get(node.name, []))
         sock.queue.append((data, (str(sa.peer_addr), 500)))
         w.net._count('adv.tamper.' + op['kind'])
         w.record(('tamper', node.name, op['kind']))
@@ -97,6 +98,15 @@ class Tamperer(Forger):
         self.delivered += 1
         self._r('tamper.' + op['kind'])
         got = self.watch.last.get(sha(data))
+        emitted = self.wire.by_sender.get(node.name, [])[sent_before:]
+        if emitted and h is not None and h['exch'] != 34 and (got is None or got[0] != 'ok'):
+            # nothing else was pending in this loop iteration (checked above): what left the node is its reaction to a datagram that is
+            # not the protected message any key holder made, and that its parser never accepted
+            w.violation(PROP, 'modified_datagram_treated_as_authentic', {'kind': op['kind'], 'parsed': 'never' if got is None else got[0]},
+                        f'{node.name}: {label} (IKE_SA {sa.my_spi.hex()}, {sa.state.name}) was {"never run through Message.parse" if got is None else "refused by Message.parse (" + got[0] + ")"}, '
+                        f'yet the endpoint reacted to it with {len(emitted)} datagram(s) of {[len(e["data"]) for e in emitted]} octets')
+            w.poisoned = True
+            return
         if got is None:
             return self._r('tamper_not_fully_parsed')       # dropped at the header (unknown SPI after the change ...)
         outcome, protected, enc_types, had_keys = got
